@@ -111,7 +111,9 @@ func (s *Server) handleService(ctx context.Context, sc *uasc.SecureChannel, reqI
 	typeID := ua.ServiceTypeID(req)
 	h, ok := s.handlers[typeID]
 	if ok {
-		resp, err = h(sc, req, reqID)
+		if err = s.checkSession(sc, typeID, req); err == nil {
+			resp, err = h(sc, req, reqID)
+		}
 	} else {
 		if typeID == 0 {
 			if s.cfg.logger != nil {
@@ -139,6 +141,41 @@ func (s *Server) handleService(ctx context.Context, sc *uasc.SecureChannel, reqI
 			s.cfg.logger.Warn("Error sending response: %s\n", err)
 		}
 	}
+}
+
+// sessionless lists the services a client may call without an activated session:
+// the Discovery service set and the two services that establish a session
+// (OPC UA Part 4, 5.4 and 5.6.2/5.6.3). Everything else needs one.
+var sessionless = map[uint16]bool{
+	id.FindServersRequest_Encoding_DefaultBinary:          true,
+	id.FindServersOnNetworkRequest_Encoding_DefaultBinary: true,
+	id.GetEndpointsRequest_Encoding_DefaultBinary:         true,
+	id.RegisterServerRequest_Encoding_DefaultBinary:       true,
+	id.RegisterServer2Request_Encoding_DefaultBinary:      true,
+	id.CreateSessionRequest_Encoding_DefaultBinary:        true,
+	id.ActivateSessionRequest_Encoding_DefaultBinary:      true,
+}
+
+// checkSession refuses a request that does not carry the authentication token of a
+// session that was created, activated on this secure channel and not closed.
+func (s *Server) checkSession(sc *uasc.SecureChannel, typeID uint16, req ua.Request) error {
+	if sessionless[typeID] {
+		return nil
+	}
+	hdr := req.Header()
+	if hdr == nil {
+		return ua.StatusBadSessionIDInvalid
+	}
+	sess := s.Session(hdr)
+	switch {
+	case sess == nil:
+		return ua.StatusBadSessionIDInvalid
+	case !sess.activated:
+		return ua.StatusBadSessionNotActivated
+	case sess.channel != sc:
+		return ua.StatusBadSecureChannelIDInvalid
+	}
+	return nil
 }
 
 func responseHeader(reqID uint32, statusCode ua.StatusCode) *ua.ResponseHeader {
